@@ -68,6 +68,7 @@ def explore_mix(profiles, tier, seed, native=True, dbg=True, miri=True, asan=Fal
         # second aliasing model + 32-bit and big-endian targets
         for prof in profiles[:2]:
             jobs.append(ex("miri", prof, 4, 55, 4, seed + 17, weight=10, timeout=7200, miriflags="-Zmiri-tree-borrows", label="miri-tree-borrows"))
+        jobs.append(ex("miri-rel", profiles[0], 4, 55, 4, seed + 19, weight=10, timeout=7200, label="miri-release-profile"))
         jobs.append(ex("miri-i686", profiles[0], 4, 55, 4, seed + 23, weight=10, timeout=7200, label="miri-i686"))
         jobs.append(ex("miri-be", profiles[0], 4, 55, 4, seed + 29, weight=10, timeout=7200, label="miri-powerpc64-be"))
     return jobs
@@ -91,7 +92,7 @@ RULES = {
 
 BIG32_PROPS = {1, 2, 3, 6, 8, 9, 10, 11, 12, 13, 20}
 BIG32_RULE = (" | 2^24 boundary (engine big32): on 32-bit targets texts of 2^24-1 bytes or more keep their length in the heap buffer (shared by all handles) "
-              "and capacities above 2^24-2 change the allocation layout; Miri interprets the crate for i686 and for big-endian armeb while random histories push lengths "
+              "and capacities above 2^24-2 change the allocation layout; Miri interprets the crate for i686 (debug and release profile: the crate's debug assertions would otherwise mask release behaviour) and for big-endian armeb while random histories push lengths "
               "and capacities across that boundary in unique, shared and static handles. Oracles are O(1)+memcmp: every live handle == its String model after every step, "
               "reference count == live handles pointing at the same bytes, live allocator blocks == distinct buffers, capacity rules of C11-C13, clone/static request counts")
 
@@ -99,9 +100,10 @@ BIG32_RULE = (" | 2^24 boundary (engine big32): on 32-bit targets texts of 2^24-
 def big32_jobs(tier, seed):
     quick = tier == "quick"
     jobs = []
-    for fl, label in (("miri-i686", "miri-i686(2^24 boundary)"), ("miri-be32", "miri-armeb-be32(2^24 boundary)")):
-        for i in range(2 if quick else 8):
-            jobs.append(eng(fl, "big32", ["--cases", 7, "--steps", 30 if quick else 80, "--first-case", 7 * i, "--refuse-over", 1 << 28], 1, seed + 70 + i,
+    for fl, label, nq, nt in (("miri-i686", "miri-i686(2^24 boundary)", 2, 8), ("miri-i686-rel", "miri-i686-release(2^24 boundary)", 1, 4),
+                              ("miri-be32", "miri-armeb-be32(2^24 boundary)", 2, 8)):
+        for i in range(nq if quick else nt):
+            jobs.append(eng(fl, "big32", ["--cases", 7, "--steps", 30 if quick else 80, "--first-case", 7 * i + (14 if fl.endswith("-rel") else 0), "--refuse-over", 1 << 28], 1, seed + 70 + i,
                             weight=10, timeout=1500 if quick else 7200, label=label))
     jobs.append(eng("native-rel", "big32", ["--shim", "shadow", "--cases", 28 if quick else 700, "--steps", 60], 2, seed + 75, weight=3, label="native-rel(2^24 boundary)"))
     return jobs
@@ -131,6 +133,9 @@ def plan_for(prop, tier, seed):
     elif n == 3:
         p["jobs"] = explore_mix(["default", "sharing", "errorpath", "shrink"], tier, seed, asan=True, memcheck=True) + HUGE + \
             [eng("asan", "huge", ["--max", 1 << 20], 1, seed + 52, weight=3)]
+        if quick:
+            # debug assertions off under Miri too (they would turn some misuse into a panic before the UB)
+            p["jobs"] += [ex("miri-rel", "sharing", 2, 55, 2, seed + 55, weight=10, timeout=1500, label="miri-release-profile")]
         # "released exactly once ... when all handles are gone nothing remains allocated" also when the
         # handles are released from different threads: the concurrent runner's heap accounting, labelled C03
         p["jobs"] += [eng("native-rel", "conc", ["--shim", "shadow", "--programs", 1500 if quick else 20000, "--execs", 10 if quick else 40, "--spin", 200, "--prop", 3], 6, seed + 53, weight=3, label="native-rel(threads)"),
@@ -174,6 +179,8 @@ def plan_for(prop, tier, seed):
         jobs = [eng("native-rel", "sizes", ["--shim", "shadow"], 1, seed, weight=3),
                 eng("native-dbg", "sizes", ["--shim", "shadow"], 1, seed + 1, weight=3)]
         jobs += sharded("miri", "sizes", ["--boundary-only", "--stride", 24 if quick else 4], 16, seed + 2, **MT)
+        # the same table on a 32-bit target (different limits: 2^24-2 inline length, 2^31 allocation limit, no 2^56 capacity limit)
+        jobs += sharded("miri-i686", "sizes", ["--boundary-only", "--stride", 3], 2 if quick else 16, seed + 7, mod=64 if quick else 16, label="miri-i686", **MT)
         jobs += [ex("native-rel", "errorpath", 600 if quick else 30000, 120, 6, seed + 4, weight=2),
                  ex("native-dbg", "errorpath", 100 if quick else 3000, 120, 4, seed + 5, weight=2)]
         if not quick:
@@ -244,6 +251,7 @@ def plan_for(prop, tier, seed):
             for i, t in enumerate(["i32", "i64", "isize", "usize", "u128"]):
                 jobs.append(eng("miri-i686", "ints", ["--only", t, "--random", 0], 1, seed + 30 + i, label="miri-i686", **MT))
                 jobs.append(eng("miri-be", "ints", ["--only", t, "--random", 0], 1, seed + 40 + i, label="miri-powerpc64-be", **MT))
+                jobs.append(eng("miri-be32", "ints", ["--only", t, "--random", 0], 1, seed + 50 + i, label="miri-armeb-be32", **MT))
         p["jobs"] = jobs
     elif n == 15:
         p["rule"] = ("to_lean_string()/try_to_lean_string() vs to_string() for both bools, EVERY char, generated Strings, LeanStrings in inline/static/heap storage, &str/Box<str>/fmt::Arguments/Wrapping (generic arm), scripted Display impls writing 0-6 pieces through write_str/write!/write_char/padding with an error injected after every piece position (must give Err(Fmt), never a partial string); f32/f64: text must parse back to identical bits (NaN to NaN): every exponent x sampled mantissas + specials (thorough: ALL 2^32 f32 patterns), f64 every exponent x fixed mantissas + random patterns. distinct_nontrivial = specialisation arms / cells with executions; an arm with zero executions makes the run inconclusive")
